@@ -269,6 +269,152 @@ def r09_6(prog: Program, rep):
                c.lineno)
 
 
+def r09_11(prog: Program, rep):
+    """OBJECTS BEFORE THE SHALLOW BOUNDARY MOVES.  `.git/shallow` cuts the history; removing a commit from it makes its parents
+    part of every ref's closure.  In every function that installs a pack AND applies a shallow update to the same repository the
+    update comes after the install on all paths; and the graph walker that the in-process fetch hands to the negotiation - whose
+    `update_shallow` is the target's live `Repo.update_shallow` and is called by find_missing_objects before a single object has
+    been produced - has that callback re-bound first."""
+    n = 0
+    INSTALL = {"add_pack_data", "add_thin_pack", "commit"}
+
+    def alias_names(f):
+        out = set()
+        for x in ast.walk(f.node):
+            if isinstance(x, ast.Assign) and len(x.targets) == 1 and isinstance(x.targets[0], ast.Name) \
+                    and isinstance(x.value, ast.Attribute) and x.value.attr == "update_shallow":
+                out.add(x.targets[0].id)
+        return out
+
+    def applies(c, aliases):
+        if isinstance(c.func, ast.Attribute) and c.func.attr == "update_shallow":
+            return not (isinstance(c.func.value, ast.Name) and c.func.value.id == "self")
+        return isinstance(c.func, ast.Name) and c.func.id in aliases
+
+    for rel in ("dulwich/repo.py", "dulwich/client.py"):
+        m = prog.module(rel)
+        for f in m.funcs.values():
+            al = alias_names(f)
+            calls = [x for x in _walk_shallow(f.node) if isinstance(x, ast.Call)]
+            if not any(applies(c, al) for c in calls) or not any(callee_name(c) in INSTALL for c in calls):
+                continue
+            g = cfg_of(prog, f)
+            ap = nodes_calling(g, lambda c: applies(c, al))
+            inst = nodes_calling(g, lambda c: callee_name(c) in INSTALL)
+            bad = must_pass(g, ap, inst)
+            n += 1
+            rep.ob("R09.11", rel, f.qual, "the shallow file of the receiving repository is updated only after the pack is installed", not bad,
+                   "the boundary is moved while the objects behind it are not in the store yet: a crash (or a failed transfer) leaves refs "
+                   "whose closure is broken - git commits the shallow file after index-pack", g.nodes[bad[0]].line if bad else f.node.lineno)
+    # the in-process fetch: the walker's live callback
+    repo = prog.module("dulwich/repo.py")
+    fmo, fe = repo.funcs.get("BaseRepo.find_missing_objects"), repo.funcs.get("BaseRepo.fetch")
+    if fmo is None or fe is None:
+        raise AnalysisError("BaseRepo.find_missing_objects / BaseRepo.fetch not found")
+    calls_cb = any((isinstance(x, ast.Call) and callee_name(x) == "getattr" and len(x.args) >= 2 and isinstance(x.args[1], ast.Constant)
+                    and x.args[1].value == "update_shallow")
+                   or (isinstance(x, ast.Call) and isinstance(x.func, ast.Attribute) and x.func.attr == "update_shallow")
+                   for x in ast.walk(fmo.node))
+    g = cfg_of(prog, fe)
+    neg = [(i, c) for i, nd in g.nodes.items() for c in node_calls(nd) if callee_name(c) == "fetch_pack_data"]
+    if not neg:
+        raise AnalysisError("BaseRepo.fetch: call of fetch_pack_data not found")
+    al = alias_names(fe)
+    for i, c in neg:
+        w = arg_of(c, 1, "graph_walker")
+        ok = not calls_cb
+        why = "find_missing_objects does not call the walker's update_shallow"
+        if calls_cb:
+            why = "the walker is built in the call: its update_shallow is the target's live Repo.update_shallow"
+            if isinstance(w, ast.Name):
+                reb = []
+                for j, nd in g.nodes.items():
+                    a = nd.ast
+                    if isinstance(a, ast.Assign) and any(isinstance(t, ast.Attribute) and t.attr == "update_shallow" and isinstance(t.value, ast.Name)
+                                                         and t.value.id == w.id for t in a.targets):
+                        live = isinstance(a.value, ast.Attribute) and a.value.attr == "update_shallow" \
+                            or any(isinstance(y, ast.Call) and applies(y, al) for y in ast.walk(a.value))
+                        if not live:
+                            reb.append(j)
+                bad = must_pass(g, [i], reb)
+                ok = bool(reb) and not bad
+                why = "" if ok else f"`{w.id}.update_shallow` is still the target's live callback when the negotiation runs"
+        n += 1
+        rep.ob("R09.11", repo.rel, fe.qual, "the walker handed to the negotiation cannot rewrite the target's shallow file before the pack exists", ok,
+               why + ": find_missing_objects calls it before a single object has been produced", g.nodes[i].line)
+    return n
+
+
+def _ref_writes(g):
+    """(node, name expression, value expression or None) for every ref write of the CFG: refs[N] = v, set_if_equals(N, old, v),
+    add_if_new(N, v), and X.commit(ref=N, ...) with a ref that is not None (value None: the commit it creates)."""
+    out = []
+    for i, nd in g.nodes.items():
+        a = nd.ast
+        if isinstance(a, ast.Assign):
+            for t in a.targets:
+                if isinstance(t, ast.Subscript) and (dotted(t.value) or "").endswith("refs"):
+                    out.append((i, t.slice, a.value))
+        for c in node_calls(nd):
+            cn = callee_name(c)
+            if cn == "set_if_equals":
+                out.append((i, arg_of(c, 0, "name"), arg_of(c, 2, "new_ref")))
+            elif cn == "add_if_new":
+                out.append((i, arg_of(c, 0, "name"), arg_of(c, 1, "ref")))
+            elif cn == "commit" and isinstance(c.func, ast.Attribute):
+                r = arg_of(c, None, "ref")
+                if r is not None and not (isinstance(r, ast.Constant) and r.value is None):
+                    out.append((i, r, None))
+    return out
+
+
+def r09_12(prog: Program, rep):
+    """OLD OR NEW, NOTHING IN BETWEEN.  A function that creates a commit for a ref writes that ref ONCE, with the id of the commit it
+    created: no write of the same ref with another value (a 'parking' value such as HEAD) precedes it.  Decided for the stash ref in
+    Stash.push and, generally, as NEVER-BEFORE(write of N, commit(ref=N)) in every function that commits onto a named ref."""
+    n = 0
+    st = prog.module("dulwich/stash.py")
+    f = st.funcs.get("Stash.push")
+    if f is None:
+        raise AnalysisError("Stash.push not found")
+    g = cfg_of(prog, f)
+    rd = reaching_defs(g)
+    ws = [(i, nm, v) for i, nm, v in _ref_writes(g) if nm is not None and norm(nm) == "self._ref"]
+    if not ws:
+        raise AnalysisError("Stash.push: no write of the stash ref found")
+    for i, nm, v in ws:
+        ok = v is None
+        if isinstance(v, ast.Name):
+            ds = rd[i].get(v.id, frozenset())
+            ok = bool(ds) and all(d >= 0 and isinstance(g.nodes[d].ast, (ast.Assign, ast.AnnAssign)) and isinstance(g.nodes[d].ast.value, ast.Call)
+                                  and callee_name(g.nodes[d].ast.value) == "commit" for d in ds)
+        n += 1
+        rep.ob("R09.12", st.rel, f.qual, "the stash ref is only ever set to the id returned by commit()", ok,
+               f"`{norm(v) if v is not None else ''}` is written to refs/stash: between this write and the final one the ref holds a value that "
+               "is neither the previous stash nor the new one (a crash there loses the previous stash)", g.nodes[i].line)
+    wn = [i for i, _, _ in ws]
+    twice = [b for a in wn for b in wn if b in reach(g, [a])]
+    n += 1
+    rep.ob("R09.12", st.rel, f.qual, "the stash ref is written at most once on every path", not twice,
+           "two durable writes of refs/stash on one path", g.nodes[twice[0]].line if twice else f.node.lineno)
+    # generally: no function parks a ref before committing onto it
+    for m in prog.modules.values():
+        if not m.rel.startswith("dulwich/") or m.rel.startswith("dulwich/tests/"):
+            continue
+        for f in m.funcs.values():
+            if not any(isinstance(x, ast.Call) and callee_name(x) == "commit" and any(k.arg == "ref" for k in x.keywords) for x in _walk_shallow(f.node)):
+                continue
+            g = cfg_of(prog, f)
+            ws = _ref_writes(g)
+            commits = [(i, nm) for i, nm, v in ws if v is None]
+            for i, nm in commits:
+                before = [j for j, nm2, v2 in ws if v2 is not None and nm2 is not None and norm(nm2) == norm(nm) and i in reach(g, [j])]
+                n += 1
+                rep.ob("R09.12", m.rel, f.qual, f"no other write of `{norm(nm)}` precedes the commit onto it", not before,
+                       "the ref is parked on a temporary value before the commit that updates it exists", g.nodes[before[0]].line if before else g.nodes[i].line)
+    return n
+
+
 def run(prog: Program, rep, tier="quick"):
     rep.rule("R09.1", "objects before refs: every ref write of a locally built object's id is dominated by add_object(s) of it")
     rep.rule("R09.2", "_complete_pack: flush/fsync/close < rename < index lock < index commit & validation < pack cache")
@@ -277,6 +423,8 @@ def run(prog: Program, rep, tier="quick"):
     rep.rule("R09.4", "repack/pack_loose_objects: NEVER-BEFORE(delete, add_objects)")
     rep.rule("R09.5", "NEVER-BEFORE(remove loose ref, commit packed-refs); deletion removes the packed entry first")
     rep.rule("R09.6", "prune removes only after the grace-period test")
+    rep.rule("R09.12", "old or new, nothing in between: a ref is written once, with the commit created for it (no parking value)")
+    rep.rule("R09.11", "objects before the shallow boundary moves: the receiving repository's shallow file is updated after the pack is installed")
     rep.not_decided += ["that the enumerated effects are all the effects", "torn sector writes, directory fsync",
                         "reopening the repository at each crash point (a runtime enumeration)"]
     rep.assumptions += ["effects are calls resolved to os.*, GitFile, add_object(s), _add_cached_pack"]
@@ -291,6 +439,10 @@ def run(prog: Program, rep, tier="quick"):
     rep.floor("R09.4", 4)
     rep.floor("R09.5", 3)
     r09_10(prog, rep)
+    r09_11(prog, rep)
+    r09_12(prog, rep)
+    rep.floor("R09.12", 3)
+    rep.floor("R09.11", 2)
     from sa.common import share
     from rules import c07
     share(rep, lambda: c07.r07_4(prog, rep), "R09.9", lambda o: True,
